@@ -31,6 +31,15 @@ LENS = {
 }
 
 
+def _call(f, x):
+    """call a converter the way instrumented ZConfig code would (builtins such as `str` as a
+    datatype must see the symbolic-aware helper, not the C implementation)"""
+    from .. import instr
+    if instr.installed():
+        return instr._vf_call(f, x)
+    return f(x)
+
+
 def _no_dot(c, i):
     return c != ord('.')
 
@@ -114,7 +123,7 @@ class C09(Harness):
                 return ('ok', '?')
             f = datatypes.Registry().get(dt)
             try:
-                v = f(s)
+                v = _call(f, s)
             except ValueError:
                 return ('ValueError',)
             except TypeError:
@@ -126,7 +135,7 @@ class C09(Harness):
                 return ('ok', (fam, v.address))
             if dt in O.KEY_NORMALISERS:
                 try:
-                    v2 = f(v)
+                    v2 = _call(f, v)
                 except ValueError:
                     return ('ok', v, ('not-idempotent',))
                 return ('ok', v, v2)
